@@ -38,6 +38,12 @@ theorem binary_cases_assign :
         | some n => row.2 == ["lit:" ++ n]
         | none => true)) = true := by decide
 
+/-- [C19, C08] `parser.let` hands on the `DefineVariables` node it builds and nothing else (or `nil` beside an error): no scope
+    is merged with another, elided or replaced by its body at parse time -/
+theorem let_builds_define :
+    (letReturns.all (fun r => r == "nil" || r == "lit:DefineVariables") && letReturns.contains "lit:DefineVariables") = true := by
+  decide
+
 /-- [C10, C04] …and every such token has a case -/
 theorem binary_cases_complete :
     allTokens.all (fun t => (expectedLoopNode t).isNone || loopNodes.any (fun row => row.1.any (fun tn => tokOfName tn == some t))) = true := by
